@@ -1,4 +1,5 @@
 import DateutilVerif.Properties.C06
+import DateutilVerif.Properties.TzGen   -- translator tie (wt-iso): obligations about the re-translated lookup functions
 #print axioms C06.lookup_exact
 #print axioms C06.typeAt_before_first
 #print axioms C06.before_first
@@ -6,3 +7,10 @@ import DateutilVerif.Properties.C06
 #print axioms C06.decode_encode
 #print axioms C06.eq_of_same_data
 #print axioms C06.eq_same_answers
+-- translator tie (wt-iso): Gen.* (Generated/TzKernels.lean) = model, and `_gen` twins
+#print axioms C06.gen_eq_model_find_ttinfo
+#print axioms C06.gen_eq_model_utcoffset
+#print axioms C06.gen_eq_model_dst
+#print axioms C06.gen_eq_model_tzname
+#print axioms C06.gen_eq_model_fromutc
+#print axioms C06.lookup_exact_gen
